@@ -24,6 +24,8 @@ const baseTs int64 = 1699998300000 // ms; a multiple of 60 060 000 ms = lcm of e
 // compare by value, strings exactly.
 func tkey(v any) string {
 	switch x := v.(type) {
+	case evK2:
+		return "T(" + tkey(x.A) + "\x01" + tkey(x.B) + ")"
 	case nil:
 		return "N"
 	case string:
